@@ -100,7 +100,9 @@ inline void mx_role(mx_round &R, int tid, uint64_t rseed) {
             break;
         }
         case MK_BLOCK: {
-            cocls::mutex::ownership own(R.mx->lock());
+            // two blocking forms: construction of the ownership from the request (wait()), and force_wait() - the form that is also allowed
+            // inside coroutines and has its own implementation
+            cocls::mutex::ownership own = (((uintptr_t)&q >> 7) & 1) ? cocls::mutex::ownership(R.mx->lock()) : cocls::mutex::ownership(R.mx->lock().force_wait());
             mx_critical(R, q);
             if (q.rel == MR_DISCARD || q.rel == MR_AWAIT) own.release();
             else if (q.rel == MR_THREAD) mx_release_in_thread(std::move(own));
